@@ -11,7 +11,7 @@ ID = "C02"
 LEVEL = "exploration"
 RULE = (
     "random DAGs (1-8 targets; chains, diamonds, fans, forests, disconnected parts), random file state with ties, on "
-    "simulated Slurm (60%), SGE and LSF. direct lane: a backend state vector over "
+    "simulated Slurm (60%), SGE and LSF, plus the local backend against a recording stand-in for the pool (task ids from 0). direct lane: a backend state vector over "
     "unknown/submitted/running/completed/failed/cancelled (as far as the scheduler can represent it) is written into the "
     "tracked-jobs file and the simulator's job table, foreign jobs present, then one `gwf run [patterns]`. driven lane: "
     "2-3 rounds of `gwf run sel_i` with a seeded adversary starting/finishing(ok|fail)/cancelling jobs between rounds "
@@ -34,6 +34,8 @@ def budget(tier):
 def gen_case(rng, idx, tier):
     sched = rng.choices(["slurm", "sge", "lsf"], [6, 2, 2])[0]
     lane = "driven" if idx % 3 == 0 else "direct"
+    if idx % 7 == 5:
+        sched, lane = "local", "local"
     dag = gen.gen_dag(rng, max_targets=8, p_noout=0.08)
     ticks = {}
     for s in dag["sources"]:
@@ -45,6 +47,11 @@ def gen_case(rng, idx, tier):
         t["spec"] = "echo %s\n" % t["name"]
     names = [t["name"] for t in dag["targets"]]
     case = {"lane": lane, "sched": sched, "dag": dag, "ticks": ticks, "first_id": rng.choice([7, 100, 1000, 99990])}
+    if lane == "local":
+        case["first_id"] = 0  # a fresh pool numbers its tasks from 0
+        case["bstate"] = {n: rng.choice(["unknown", "submitted", "running", "completed", "failed", "cancelled"]) if rng.random() < 0.6 else "unknown" for n in names}
+        case["patterns"] = scenario.gen_selection(rng, names)
+        return case
     if lane == "direct":
         reps = scenario.REPRESENTABLE[sched]
         case["bstate"] = {n: rng.choice(reps) if rng.random() < 0.6 else "unknown" for n in names}
@@ -101,7 +108,66 @@ def do_run(case, proj, sim, env, mts, deps, patterns, res, label):
     return {"bview": bview, "st": st, "want": want_submit, "cone": model.cone(selected, deps), "nstates": len(set(bview.get(n, "unknown") for n in names))}
 
 
+def run_local(case):
+    """the same plan through the local backend: a recording stand-in for the worker pool holds the task
+    table (ids from 0), the real TrackingBackend/LocalOps client talks to it"""
+    from ..recserver import RecServer
+
+    res = Result()
+    LOCAL = {"submitted": "SUBMITTED", "running": "RUNNING", "completed": "COMPLETED", "failed": "FAILED", "cancelled": "CANCELLED"}
+    with gen.Project() as proj, RecServer(first_id=0) as srv:
+        mts, deps = setup(case, proj)
+        proj.write_config({"backend": "local", "backend.local.port": srv.port, "backend.local.host": "127.0.0.1"})
+        tracked = {}
+        for n, s in sorted(case["bstate"].items()):
+            if s == "unknown":
+                continue
+            tid = srv.next
+            srv.next += 1
+            srv.tasks[tid] = {"name": n, "deps": [], "state": LOCAL[s]}
+            tracked[n] = tid
+        if tracked:
+            proj.write_state("local-backend-tracked.json", tracked)
+        bview = dict(case["bstate"])
+        mtime = scenario.disk_mtimes(scenario.all_paths(mts))
+        sel = scenario.select(set(deps), case["patterns"])
+        selected = model.endpoints(deps) if sel is None else sel
+        want_submit, want_prereq, st = model.plan(mts, deps, bview, mtime, selected)
+        env = cli.env_for(None, ())
+        n0 = len(srv.log)
+        r = cli.gwf(proj.root, ["run"] + case["patterns"], env, audit=False)
+        res.mon("runs")
+        ctx = {"sched": "local", "patterns": case["patterns"], "backend": bview, "tracked": tracked}
+        if r.rc != 0:
+            res.violation("crash", "gwf -b local run failed", **cli.crash_witness(r), **ctx)
+            return res
+        enq = [m for m in srv.log[n0:] if m.get("__kind__") == "enqueue_task"]
+        names = [m["name"] for m in enq]
+        res.mon("submissions", len(names))
+        if sorted(names) != sorted(want_submit):
+            inflight = [n for n in names if bview.get(n) in ("submitted", "running")]
+            res.violation("resubmitted-inflight" if inflight else "plan-mismatch", "local: enqueued %s; expected %s" % (sorted(names), sorted(want_submit)), **ctx)
+            return res
+        newid = {}
+        for m in enq:
+            newid[m["name"]] = max(t for t, v in srv.tasks.items() if v["name"] == m["name"])
+        order = {m["name"]: i for i, m in enumerate(enq)}
+        for m in enq:
+            res.mon("prereq_sets")
+            want = sorted(newid[d] if d in newid else tracked[d] for d in want_prereq[m["name"]])
+            if sorted(m["deps"]) != want:
+                res.violation("prereq-mismatch", "local: %s enqueued with deps %s; expected %s" % (m["name"], m["deps"], want), **ctx)
+            for d in want_prereq[m["name"]]:
+                if d in order and order[d] > order[m["name"]]:
+                    res.violation("order", "local: %s enqueued before its prerequisite %s" % (m["name"], d), **ctx)
+        res.sig = (gen.shape_class(deps), sorted(bview.values()), bool(case["patterns"]), len(want_submit), "local")
+        res.nontrivial = len(set(bview.values())) >= 2 and any(len(d) >= 2 for d in deps.values()) and 0 < len(want_submit) < len(deps)
+    return res
+
+
 def run_case(case):
+    if case["sched"] == "local":
+        return run_local(case)
     res = Result()
     sched = case["sched"]
     with gen.Project() as proj:
